@@ -159,6 +159,7 @@ func onePair(pre []In, a In, b []In, k int, states map[uint64]struct{}) (*hx.Vio
 	hist = append(hist, histA...)
 	hist = append(hist, histB...)
 	exec(main, In{Kind: OpQuery})
+	rt.ReapBlockedSUT() // a table that owns goroutines (none on the pinned tree) is dropped here
 	desc := ""
 	for _, in := range pre {
 		desc += in.String() + "; "
